@@ -256,7 +256,8 @@ LATE = {
            "next_idx are proved equal to definitions regenerated from target.go / load_balancer.go on every run (harness/gofacts, "
            "coq/corr/GenTie.v.in).",
     "C05": "Also: monitor corr/C05cmd.c05_refusal_ok (a host-in-use refusal needs a real conflict in the commanded table, a success needs none); "
-           "link theorems props/C05cmd.v.",
+           "link theorems props/C05cmd.v and props/C05refusal.v (on every model history every host-in-use refusal has a real conflict in the "
+           "commanded table and every successful deploy has none; refuted for the pinned variant).",
     "C06": "Also: commands that fail because another command got in between, under the real scheduler (harness/c06_race_test.go): the failed "
            "command's targets are no longer probed and the targets the table still holds still are.",
     "C08": "Also: custom error pages replaced in place between deploys - model/Pages.v, theorems props/C08pages.v (the page is that of the "
